@@ -79,9 +79,9 @@ func genC07(t *rapid.T) *c07Scenario {
 			sc.Cycles = envInt("VERIF_C07_RL_CYCLES", 1)
 		}
 		sc.PingFreqMS = rapid.SampledFrom([]int{0, 3}).Draw(t, "pingfreq_rl")
-		if sc.ConnectedEmits > 5 {
-			sc.ConnectedEmits = 5 // each rate-limited line costs seconds
-		}
+		// a CONNECTED handler that sends would sit behind a queue of rate-limited keep-alive PINGs for
+		// minutes; the session set-up is not what this scenario is about
+		sc.ConnectedEmits = 0
 	}
 	return sc
 }
